@@ -240,6 +240,8 @@ def case_history(ctx, rng):
             elif act == 'bin_complex':
                 op = str(rng.choice(list(BIN)))
                 y = complex(float(rng.uniform(0.5, 2)), float(rng.uniform(0.5, 2)) * rng.choice([-1, 1]))
+                if rng.random() < 0.25:
+                    y = complex(y.real, 0.0) if rng.random() < 0.6 else complex(0.0, y.imag)   # on an axis
                 left = bool(rng.integers(0, 2))
                 if op in ('**', '/'):
                     a = abs(a) + 0.5
@@ -398,7 +400,8 @@ def case_mixed_table(ctx, rng):
     pool, tab, ens = start_pool(rng, ctx.tier)
     a = abs(pool[0]) + 0.5
     z = pe.CObs(a, pool[1])
-    numbers = [2, -3, 0.5, -1.25, 1 + 2j, -0.5 - 1j, np.float64(1.5), np.int64(2), np.complex128(1 - 1j)]
+    numbers = [2, -3, 0.5, -1.25, 1 + 2j, -0.5 - 1j, np.float64(1.5), np.int64(2), np.complex128(1 - 1j),
+               complex(2.5, 0.0), 3 + 0j, 2j, np.complex128(-1.5), (1 + 1j) * (1 - 1j)]   # incl. complex numbers on the real / imaginary axis
     # plus seeded draws from wider pools (zero, one, large and tiny magnitudes, numpy scalar types)
     numbers += [int(rng.choice([0, 1, -1, 7, -12, 10 ** 6])), float(rng.choice([0.0, 1.0, -1.0, 1e-6, 3e5, 2.5])),
                 complex(float(rng.integers(-3, 4)), float(rng.choice([-2.0, 1.0, 3.5]))),
